@@ -99,7 +99,29 @@ theorem rename_reload (env : Env) (k : Str) (v : PVals) (it : Item) (f' : Str)
   obtain ⟨hp, hr⟩ := item_plain_reload env k' v (rename f' it) hk'
   exact ⟨_, hp, hr (by unfold valsOk at hv ⊢; rw [hraw]; exact hv)⟩
 
-/-! ## `resync`: a value transformation on an item without modifiers -/
+/-- the same, with the shape of what is written: a one-key map -/
+theorem rename_reload_keyed (env : Env) (k : Str) (v : PVals) (it : Item) (f' : Str)
+    (h : fromMapping env k v = .ok it) (hfield : it.field.isSome = true)
+    (hf1 : f'.isEmpty = false) (hf2 : '|' ∉ f') (hv : valsOk k v = true) :
+    ∃ kk vv, toPlainItem (rename f' it) = .ok (.keyed kk vv) ∧ fromMapping env kk vv = .ok (rename f' it) := by
+  obtain ⟨p, hp, hr⟩ := rename_reload env k v it f' h hfield hf1 hf2 hv
+  cases p with
+  | keyed kk vv => exact ⟨kk, vv, hp, hr⟩
+  | bare vv =>
+    exfalso
+    unfold toPlainItem at hp
+    cases ho : (rename f' it).orig with
+    | none => simp [ho] at hp
+    | some orig =>
+      simp only [ho] at hp
+      have hmods : (rename f' it).mods = it.mods := rfl
+      have hfld : (rename f' it).field = some f' := rfl
+      rw [hmods, hfld] at hp
+      cases hm : mapE (valToPlain (isRaw it.mods)) orig with
+      | error e => simp [hm] at hp
+      | ok pvs => simp [hm] at hp
+
+/-! ## `resync` / `valueTouch`: a value transformation -/
 
 /-- values whose plain form loads to the same value again -/
 def plainFaithful : Val → Bool
@@ -180,6 +202,35 @@ theorem resync_reload (env : Env) (it : Item) (vs : List Val) (f : Str)
     simp only [fromIPlain, fromMapping_eq, collapse_toList, emitKey, Option.getD_some, joinBar,
       splitOn_noSep '|' f hf, List.headD_cons, List.drop_succ_cons, List.drop_zero]
     simpa [resync, hfe] using hbuild
+
+theorem plainType_of_faithful (v : Val) (h : plainFaithful v = true) : plainType v = true := by
+  cases v with
+  | str c s => cases c <;> simp_all [plainFaithful, plainType]
+  | num n => rfl
+  | bool b => rfl
+  | null => rfl
+  | re a b c d => simp [plainFaithful] at h
+  | cidr t => simp [plainFaithful] at h
+  | cmp a b => simp [plainFaithful] at h
+  | fieldref a b c => simp [plainFaithful] at h
+  | exists_ b => simp [plainFaithful] at h
+  | tspart a b => simp [plainFaithful] at h
+  | expansion vs => simp [plainFaithful] at h
+
+/-- a value transformation on an item with modifiers, or one that yields a value that is not exactly a
+string / number / boolean / null, disables serialisation -/
+theorem valueTouch_refuses (vs : List Val) (it : Item)
+    (h : (it.mods.isEmpty && vs.all plainType) = false) :
+    toPlainItem (valueTouch vs it) = .error .refused := by
+  unfold valueTouch
+  rw [h]
+  exact toPlainItem_disabled _ rfl
+
+theorem valueTouch_resync (vs : List Val) (it : Item) (hm : it.mods = [])
+    (hvs : ∀ v ∈ vs, plainFaithful v = true) : valueTouch vs it = resync vs it := by
+  unfold valueTouch
+  have : vs.all plainType = true := List.all_eq_true.mpr (fun v hv => plainType_of_faithful v (hvs v hv))
+  simp [hm, this]
 
 /-! ## the detection section -/
 
